@@ -130,7 +130,11 @@ def _lnnf_mapping_tolerance(kind, xa, eff, ref_b):
     fn = R.cdf if kind == "cdf" else R.pdf
     a = np.asarray(fn("lognormal", xa, mu=mu, sigma=sig * (1 + delta)), float)
     b = np.asarray(fn("lognormal", xa, mu=mu, sigma=sig * (1 - delta)), float)
-    return np.abs(a - ref_b) + np.abs(b - ref_b)
+    # mu = ln(m / sqrt(1 + r)) is only known to a few ulp; for a tiny sigma that is amplified by 1/sigma
+    dmu = 8 * np.spacing(np.maximum(np.abs(mu), 1.0))
+    c_ = np.asarray(fn("lognormal", xa, mu=mu + dmu, sigma=sig), float)
+    d_ = np.asarray(fn("lognormal", xa, mu=mu - dmu, sigma=sig), float)
+    return np.abs(a - ref_b) + np.abs(b - ref_b) + np.abs(c_ - ref_b) + np.abs(d_ - ref_b)
 
 
 def _post(kind):
